@@ -55,10 +55,28 @@ def numeric_form(t: T):
         if inner == "num":
             return "num" if v[1] >= 64 else "narrow"
         return inner
+    if t.op == "ite" and _arith_cond(t.a[0]):
+        # a choice between two renderings of the word (hex above 9, decimal below) is still the word; a choice
+        # between the word and arithmetic on it (a hand-written sign conversion of the wrong width) is not
+        forms = (numeric_form(t.a[1]), numeric_form(t.a[2]))
+        if forms == ("num", "num"):
+            return "num"
+        if all(f is not None for f in forms):
+            return "narrow" if "narrow" in forms else "arith"
     # arithmetic-only?
     if _arith_only(t):
         return "arith"
     return None
+
+
+def _arith_cond(c: T) -> bool:
+    if c.op == "not":
+        return _arith_cond(c.a[0])
+    if c.op == "bool":
+        return all(_arith_cond(x) for x in c.a[1])
+    if c.op == "cmp":
+        return _arith_only(c.a[1]) and _arith_only(c.a[2])
+    return _arith_only(c)
 
 
 def _arith_only(t: T) -> bool:
